@@ -94,15 +94,18 @@ EXTRA = {
  "C03": "Added: header-echo variants (all-zero header as tridge echoes it, strong length 0/2/15) and the demand that a kept file is not re-stamped with the new version's time; flips that declare a literal of >= 16 MiB are skipped and counted.",
  "C04": "Added: files whose leading full blocks are unchanged (appended data; shorter different end), a directory created by the transfer; after a connection break every order of the first failure is explored; quick freezes every 11 bytes (thorough 7 and 1).",
  "C05": "Added: 8 vectors whose hostile entry lies several levels below the escaping component with unlisted parents.",
+ "C07": "Added: part histories = one long-lived Server with a read-only module sharing its directory with a writable one; uploads to read-only modules after 0/1/2 rounds of legitimate uploads.",
+ "C10": "Added: names sorting between a directory and its contents next to missing / wrong-type directories, deeper levels below them.",
+ "C20": "Added: daemon-side option tokens (--gokr.modulemap, --gokr.config) in the exec grammar; every greeted session is asked for its module list and for a module it must not have.",
  "C08": "Added: every pair of deviations inside one checksum header; complete frames of 13 lengths (0..2^24-1) x 8 tags x 4 positions against the client; part vanishing (client drops the connection after N bytes of a 24 MiB download, canonical pull follows at once).",
  "C09": "Added: names that sort between a directory and its contents (d-old, d.bak/), identity (inode) of listed up-to-date entries, directory-only rules (b/, z/), non-recursive -d transfers, and sources named without trailing slash with siblings next to the transferred directory.",
  "C12": "Added: part repeat = whole sessions run twice over boundary mtimes in 5 arrangements x 6 option sets (second run must leave every entry the same file system object), the -c rule with the real sender's list checksums for sizes 0..1 MiB, sparse up-to-date files of 2^31-1..5 GiB.",
  "C13": "Added: part shapes = rule lists over trailing-slash, leading-slash and path rules: refused or exactly the denoted selection.",
  "C14": "Added: option sets with -d instead of -r and with neither.",
- "C15": "Added: numbering with names that sort before '.' next to the '.' entry.",
- "C16": "Added: part long-runs = inserted/replaced/prepended runs of 256 KiB-1 .. 768 KiB+2B+1 around the sender's flush threshold, one or two per file.",
+ "C15": "Added: numbering with names that sort before '.' next to the '.' entry, and with duplicate names in both directions.",
+ "C16": "Added: part long-runs = inserted/replaced/prepended runs of 256 KiB-1 .. 768 KiB+2B+1 around the sender's flush threshold, one or two per file; deletions of 1/2, 1/3, 3/5, 9/10 of the file with the real generator.",
  "C18": "Added: part aborted = a 24 MiB download dropped by the peer mid-file followed at once by 4 concurrent ordinary downloads, under the race detector.",
- "C19": "Added: part neighbours = three prefix-named modules with their own rule lists on one server, asked in rotating order.",
+ "C19": "Added: part neighbours = three prefix-named modules with their own rule lists on one server, asked in rotating order; nested networks sharing their network address.",
 }
 
 def main():
